@@ -185,6 +185,11 @@ class MiniExec:
             raise AnalysisError(f"{self.where}: subscript `{short(expr)}` not understood")
         if isinstance(expr, ast.Call):
             return self.call(expr, env)
+        special = self.builtins.get("__special__")
+        if special is not None and isinstance(expr, (ast.SetComp, ast.ListComp, ast.GeneratorExp, ast.DictComp)):
+            out = special(self, expr, env)
+            if out is not NotImplemented:
+                return out
         raise AnalysisError(f"{self.where}: expression `{short(expr)}` not understood")
 
     @staticmethod
